@@ -13,7 +13,7 @@ VERIF=$(cd "$(dirname "$0")/.." && pwd)
 S=$(mktemp -d /tmp/vcov.XXXXXX)
 B=$(dirname $(rustup +nightly which rustc))/../lib/rustlib/x86_64-unknown-linux-gnu/bin
 cd $VERIF/harness
-RUSTFLAGS="-Cinstrument-coverage" CARGO_TARGET_DIR=$S/target CARGO_NET_OFFLINE=true cargo +nightly build --release --offline 2>&1 | tail -1
+LLVM_PROFILE_FILE=$S/build-%p.profraw RUSTFLAGS="-Cinstrument-coverage" CARGO_TARGET_DIR=$S/target CARGO_NET_OFFLINE=true cargo +nightly build --release --offline 2>&1 | tail -1
 mkdir -p $S/root/evidence $S/prof
 cp $VERIF/known_findings.json $S/root/; ln -s $VERIF/vectors $S/root/vectors
 cd $VERIF
@@ -33,4 +33,5 @@ for f in $(cd /repo && git ls-files '*.rs' | grep -E '^(html5ever/src|xml5ever/s
 done
 tail -1 $VERIF/coverage/summary.txt
 wc -l $VERIF/coverage/uncovered.txt
+find /repo -name "*.profraw" -newer $VERIF/coverage/summary.txt -delete 2>/dev/null; find /repo -maxdepth 2 -name "default_*.profraw" -delete 2>/dev/null
 rm -rf $S
